@@ -29,19 +29,22 @@ enum Class {
 	Reverted,
 	UnconfPlain,
 	UnconfCoinbase,
+	/// a reward candidate that never made it on chain and whose lock height has passed
+	UnconfCoinbasePastLock,
 	ImmatureCb,
 	ConfMinus1,
 	ConfExact,
 	OtherAcct,
 }
 
-const CLASSES: [Class; 10] = [
+const CLASSES: [Class; 11] = [
 	Class::Eligible,
 	Class::Locked,
 	Class::Spent,
 	Class::Reverted,
 	Class::UnconfPlain,
 	Class::UnconfCoinbase,
+	Class::UnconfCoinbasePastLock,
 	Class::ImmatureCb,
 	Class::ConfMinus1,
 	Class::ConfExact,
@@ -83,6 +86,7 @@ fn materialize(i: usize, o: &OutSpec, min_conf: u64) -> OutputData {
 		Class::Reverted => (OutputStatus::Reverted, 5, 0, false),
 		Class::UnconfPlain => (OutputStatus::Unconfirmed, H, 0, false),
 		Class::UnconfCoinbase => (OutputStatus::Unconfirmed, H, H + 3, true),
+		Class::UnconfCoinbasePastLock => (OutputStatus::Unconfirmed, H - 5, H - 2, true),
 		Class::ImmatureCb => (OutputStatus::Unspent, H - 1, H + 2, true),
 		Class::ConfMinus1 => (OutputStatus::Unspent, H + 2 - min_conf, 0, false),
 		Class::ConfExact => (OutputStatus::Unspent, H + 1 - min_conf, 0, false),
